@@ -219,6 +219,7 @@ func c01History(t *testing.T, idx int, seed uint64) {
 			out.Violation(sig, desc, map[string]interface{}{"history": idx, "params": params, "last_ops": o})
 		}
 		sizes := []int{spec.PayloadMin, 127, 128, 129, 1000, 4000}
+		stored, storedI := map[int]map[string]byte{}, map[int]map[string]byte{} // subscriptions of the persistent clients while they are away
 		for s := 0; s < steps; s++ {
 			ci := r.Intn(nclients)
 			c := clients[ci]
@@ -228,11 +229,25 @@ func c01History(t *testing.T, idx int, seed uint64) {
 					c.Close()
 				}
 				name := fmt.Sprintf("c%d", ci)
-				ops = append(ops, "connect "+name)
-				nc, ack := w.connectB(name, connectOpts{ClientID: name, Clean: true, KeepAlive: 600})
+				// every second client keeps its session (CleanSession=0): the subscriptions it held when its
+				// previous connection ended are held again once the new connection is up
+				persistent := ci%2 == 1 && !emptyOK // (not in the empty-level subset: see F-C01-1)
+				ops = append(ops, fmt.Sprintf("connect %s (CleanSession=%v)", name, !persistent))
+				nc, ack := w.connectB(name, connectOpts{ClientID: name, Clean: !persistent, KeepAlive: 600})
 				if ack == nil || ack.ReturnCode != 0 {
 					fail("c01:connect", fmt.Sprintf("%s: no CONNACK 0 (got %v)", name, ack))
 					return
+				}
+				if st := stored[ci]; persistent && st != nil {
+					for f, q := range st {
+						nc.subs[f] = q
+					}
+					for k, q := range storedI[ci] {
+						isubsOf(nc)[k] = q
+					}
+					if len(st) > 0 {
+						out.Count("c01.seq.resumed_with_subscriptions", 1)
+					}
 				}
 				clients[ci] = nc
 			case op < 6: // subscribe
@@ -328,6 +343,9 @@ func c01History(t *testing.T, idx int, seed uint64) {
 				c.Close()
 				settle()
 				c.up = false
+				if ci%2 == 1 && !emptyOK {
+					stored[ci], storedI[ci] = c.subs, isubsOf(c)
+				}
 				c.subs = map[string]byte{}
 				delete(isubsMap, c)
 			default: // publish
